@@ -449,7 +449,13 @@ def replay_record(p):
                     return orig(num)
                 src.get_samples = counted
                 t_before = src.t_start
-                be.record(os.path.join(d, f'a{nsb}'), num_blocks=n, length_mode='num_blocks', header_dict={}, verbose=False, load_template=False)
+                # (as in the symbolic run: the caller continues a packet counter, PKTIDX given, PKTSTART not)
+                be.record(os.path.join(d, f'a{nsb}'), num_blocks=n, length_mode='num_blocks', header_dict={'PKTIDX': 40}, verbose=False, load_template=False)
+                from setigen.voltage import raw_utils as ru_
+                h0 = ru_.read_header(os.path.join(d, f'a{nsb}.0000.raw'))
+                ps, pe, p0 = int(h0['PKTSTART']), int(h0['PKTSTOP']), int(h0['PKTIDX'])
+                if (ps, p0) != (40, 40) or pe != ps + n * be.samples_per_block or abs(float(h0['SCANLEN']) - n * be.time_per_block) > 1e-9:
+                    msgs.append(f"num_subblocks={nsb}: header PKTIDX={p0} PKTSTART={ps} PKTSTOP={pe} SCANLEN={h0['SCANLEN']} for {n} blocks of {be.samples_per_block} spectra started at packet 40 (expected PKTSTOP={40 + n * be.samples_per_block}, SCANLEN={n * be.time_per_block})")
                 want = n * be.samples_per_block * be.num_branches + be.num_taps * be.num_branches
                 if drawn[0] != want:
                     msgs.append(f"num_subblocks={nsb}{' (after an ' + p['prior'] + ' recording)' if p.get('prior') else ''}: {drawn[0]} samples drawn from the antenna for {n} blocks, expected n*spb*P + taps*P = {want}")
